@@ -7,3 +7,9 @@ import LopdfModel.Model.Pages
 import LopdfModel.Thm.C12
 import LopdfModel.Gen.Crypt
 import LopdfModel.Model.Crypt
+import LopdfModel.Lemmas.Crypt
+import LopdfModel.Spec.Hash
+import LopdfModel.Spec.Aes
+import LopdfModel.Spec.SecHandler
+import LopdfModel.Thm.C05
+import LopdfModel.Thm.C06
